@@ -119,6 +119,9 @@ def gen_program(rng, model, mode='pair', steps=40, weights=None, invalid=0.15, a
             break
         op = g.next_op()
         r.run(op)
+        # a closed connection is a sink: look at it for a few more ops only
+        if any(rc.conn.state_machine.state.name == 'CLOSED' for rc in r.world.conns.values()) and rng.random() < 0.25:
+            break
     return r
 
 
